@@ -22,7 +22,7 @@ pub fn qname(n: &RName) -> Box<Name> {
     Name::try_from_uncompressed_all(&n.wire()).expect("valid reference name rejected by quandary")
 }
 
-pub const LABELS: [&[u8]; 8] = [b"a", b"b", b"*", b"c", b"ns", b"www", b"A", b"mail"];
+pub const LABELS: [&[u8]; 10] = [b"a", b"b", b"*", b"c", b"ns", b"www", b"A", b"mail", b"z", b"Zy"];
 
 #[derive(Clone, Debug)]
 pub struct ZoneOpts {
